@@ -579,7 +579,7 @@ class Lowerer:
                         cc = (c.get('inner') or [{}])[0]
                     if cc.get('name') == n.get('name') and not cc.get('isImplicit'):
                         sibs += 1
-        if sibs > 1 or k == 'CXXConstructorDecl':
+        if sibs > 1 or k == 'CXXConstructorDecl' or (leaf.startswith('op_') and k == 'FunctionDecl'):
             ps = [self.ast.canon_arg(c['type'].get('desugaredQualType') or c['type']['qualType']) for c in n.get('inner', []) if c.get('kind') == 'ParmVarDecl']
             cq = ''
             if n.get('type', {}).get('qualType', '').rstrip().endswith('const noexcept') or re.search(r'\) const', n.get('type', {}).get('qualType', '')):
@@ -766,6 +766,12 @@ class Lowerer:
                     fld = c['anyInit']
                     inited.add(fld['name'])
                     e = c['inner'][0]
+                    if e.get('kind') == 'CXXDefaultInitExpr':
+                        # implicit use of the in-class initialiser: take the expression from the field declaration
+                        fd = [f for f in cls.get('inner', []) if f.get('kind') == 'FieldDecl' and f.get('name') == fld['name']]
+                        if not fd or not fd[0].get('inner'):
+                            raise LowerError('default member initialiser of %s not found' % fld['name'])
+                        e = fd[0]['inner'][-1]
                     out.append(self.init_assign('self->' + fld['name'], self.ctype(fld['type']), e))
                 elif 'baseInit' in c:
                     e = c['inner'][0]
